@@ -355,8 +355,10 @@ def run(repo, rep):
     from . import c07, c09
 
     rep.run_borrowed(c07, {"C07-f": "C08-k"}, repo)
-    rep.run_borrowed(c09, {"C09-b": "C08-k", "C09-a": "C08-k"}, repo)
+    rep.run_borrowed(c09, {"C09-b": "C08-k", "C09-a": "C08-k", "C09-d": "C08-k"}, repo)
+    rep.run_borrowed(c07, {"C07-i": "C08-k"}, repo, only_sites=("npu_encode_weights", "encode_weights"))
     rule_round5(repo, rep)
+    rule_forced_output_quantisation(repo, rep)
 
     # ---------------------------------------------------------------- h: key components are computed from the quantities they name
     rep.clause("C08-h", "the block-depth component of the cache key is min(requested OFM block depth, OFM depth of the weights), with the OFM depth read from the same axis as the encoder's full_ofm_depth")
@@ -427,19 +429,9 @@ def run(repo, rep):
 
     # ---------------------------------------------------------------- j: a present core without a range gets an empty stream
     rep.clause("C08-j", "on a multi-core target a core that received no range is programmed with length 0 (WEIGHT and SCALE registers)")
-    gen = repo.mod("register_command_stream_generator")
-    for fn_, lst in (("generate_weights", "weights"), ("generate_biases", "biases")):
-        g = gen.func(fn_)
-        sel = [n_ for n_ in ast.walk(g) if isinstance(n_, ast.If) and norm(n_.test) == f"core < len({lst})"]
-        ok = len(sel) == 1 and len(sel[0].orelse) == 1 and isinstance(sel[0].orelse[0], ast.If) and norm(sel[0].orelse[0].test) == "core < arch.ncores"
-        if not ok:
-            raise AnalysisError(f"{fn_}: per-core selection not recognised")
-        lens = [c for c in calls_in(sel[0].orelse[0], "emit.cmd1_with_offset")]
-        rep.check(len(lens) == 1 and len(lens[0].args) == 2 and try_fold(lens[0].args[1]) == 0, "C08-j", f"ethosu/vela/register_command_stream_generator.py:{fn_}",
-                  "the length register of a core without a range is written with 0", f"written with `{norm(lens[0].args[1]) if lens and len(lens[0].args) > 1 else '?'}`: the core decodes another core's stream as its own channels")
-        own = [c for c in calls_in(ast.Module(body=sel[0].body, type_ignores=[]), "emit.cmd1_with_offset")]
-        rep.check(len(own) == 1 and norm(own[0].args[1]) == f"{lst}[core].length", "C08-j", f"ethosu/vela/register_command_stream_generator.py:{fn_}", f"a core with a range gets {lst}[core].length", "")
-    rep.floor("C08-j", 4)
+    from .shared import idle_core_windows
+
+    idle_core_windows(repo, rep, "C08-j")
 
     # ---------------------------------------------------------------- l: staging DMA source, flash copies
     rep.clause("C08-l", "the weight DMA of a depth slice starts at core 0's range (its length spans all cores); both the weight stream and a stand-alone scale stream of an operator are copied into the flash tensor")
@@ -525,3 +517,31 @@ def rule_round5(repo, rep):
               "the reduced (16-bit multiplier) form is used iff the IFM is int16 and the bias is int64", f"selected under {cj}: int16 feature maps with an int32 bias (full 32-bit multiplier in the reference) get "
               "(multiplier >> 16, shift - 16) records, or int64-bias operators keep the full form")
     rep.floor("C08-m", 4)
+
+
+def rule_forced_output_quantisation(repo, rep):
+    """(n) when an activation is fused into the preceding operator, that operator's OFM tensor becomes the post-activation tensor and its
+    own output scale lives in `forced_output_quantization` only. The OFM scale registers honour it (get_ofm_quantization); the packed
+    scale records must be derived from the same quantisation: every function of the weight compressor that reads an operator's output
+    quantisation goes through Operation.get_output_quantization() (or reads forced_output_quantization itself)."""
+    rep.clause("C08-n", "the output quantisation behind the packed scale records is the forced-aware one (Operation.get_output_quantization), as for the OFM scale registers")
+    opm = repo.mod("operation")
+    acc = opm.func("Operation.get_output_quantization")
+    ok_acc = any(isinstance(i, ast.If) and "self.forced_output_quantization is not None" in str(norm(i.test)) and any(isinstance(r, ast.Return) and str(norm(r.value)) == "self.forced_output_quantization" for r in i.body) for i in ast.walk(acc))
+    rep.check(ok_acc, "C08-n", "ethosu/vela/operation.py:Operation.get_output_quantization", "returns forced_output_quantization when it is set", "the accessor no longer prefers the forced quantisation")
+    wc = repo.mod("weight_compressor")
+    n = 0
+    for q, fn in wc.functions.items():
+        for x in ast.walk(fn):
+            # direct reads of <op>.ofm.quantization / <op>.outputs[0].quantization
+            if isinstance(x, ast.Attribute) and x.attr == "quantization" and isinstance(x.ctx, ast.Load) and str(norm(x.value)).split(".")[-1] in ("ofm", "outputs[0]") and str(norm(x.value)).count(".") >= 1:
+                n += 1
+                rep.bad("C08-n", f"ethosu/vela/weight_compressor.py:{q}", f"`{str(norm(x))}` read directly",
+                        "bypasses forced_output_quantization: a convolution with a fused LUT activation (CONV_2D + TANH with different scales) gets its scale records computed against the post-activation scale "
+                        "while the OFM registers use the forced one")
+            if isinstance(x, ast.Call) and isinstance(x.func, ast.Attribute) and x.func.attr == "get_output_quantization":
+                n += 1
+                rep.ok("C08-n", f"ethosu/vela/weight_compressor.py:{q}", f"`{str(norm(x))}`")
+    if n < 1:
+        raise AnalysisError("weight_compressor: no read of an operator's output quantisation found")
+    rep.floor("C08-n", 2)
